@@ -3,6 +3,7 @@
 //! lag-close, abandoned subscribe, notification handler register/unregister} with the acknowledgements
 //! in every order, the cfg-guarded accessor reports the sizes of the four manager tables.
 use jrpc_harness::client_mock::*;
+use jrpc_harness::client_spell::*;
 use jrpc_harness::common::*;
 use serde_json::Value;
 use std::collections::BTreeMap;
@@ -142,7 +143,7 @@ impl Oracle {
 					self.notif(e);
 				}
 			}
-			Value::Object(o) if o.contains_key("id") && !o.contains_key("method") => {
+			Value::Object(o) if msg_kind(&v) == MsgKind::Response => {
 				let id = o.get("id").cloned().unwrap_or(Value::Null);
 				let is_err = o.contains_key("error");
 				if let Some(op) = self.calls.iter().find(|(_, v)| **v == id).map(|(k, _)| *k) {
@@ -182,7 +183,7 @@ impl Oracle {
 	}
 
 	fn notif(&mut self, e: &Value) {
-		if let (Some(Value::String(m)), None) = (e.get("method"), e.get("id")) {
+		if let (Some(Value::String(m)), true) = (e.get("method"), msg_kind(e) == MsgKind::Notification) {
 			let is_sub_shaped = e.get("params").and_then(|p| p.as_object()).map(|p| p.contains_key("subscription")).unwrap_or(false);
 			if !is_sub_shaped {
 				let shut = self.gate_shut;
@@ -225,7 +226,7 @@ fn run_one(out: &mut Out, lines: &[String]) {
 					orc.unsent.push((orc.n_ops, "call"));
 					orc.n_ops += 1;
 				}
-				"batch" => {
+				"batch" | "tbatch" => {
 					orc.unsent.push((orc.n_ops, "batch"));
 					orc.n_ops += 1;
 				}
@@ -334,11 +335,19 @@ fn run_one(out: &mut Out, lines: &[String]) {
 				orc.unsub_waiting.clear();
 			}
 			// what the client received comes before what it wrote as a consequence …
+			if w[1] == "deliverx" {
+				nontrivial = true;
+				out.count("near-miss.delivered");
+				if obs.fatal.is_none() || !obs.comps.is_empty() {
+					verdict = Err(format!("a text that is no legal message was accepted: {}", obs.render()));
+				}
+				dead = true;
+			}
 			if w[1] == "deliver" {
 				let text = String::from_utf8(unhex(w[2])).unwrap_or_default();
 				// a single response bearing the id of finished work matches nothing pending
-				if let Ok(Value::Object(o)) = serde_json::from_str::<Value>(&text) {
-					if let (Some(id), false) = (o.get("id"), o.contains_key("method")) {
+				if let Ok(v) = serde_json::from_str::<Value>(&text) {
+					if let (Some(id), true) = (v.get("id"), msg_kind(&v) == MsgKind::Response) {
 						if orc.finished_ids.contains(id) {
 							nontrivial = true;
 							out.count("stale-response.checked");
@@ -418,6 +427,8 @@ fn idj(n: u64, str_ids: bool) -> String {
 }
 
 struct G {
+	/// subscription ids of streams that have been ended (the server may hand them out again)
+	old_sids: Vec<String>,
 	str_ids: bool,
 	cap: u64,
 	/// capacity of the front-end -> back-end request queue (max_concurrent_requests)
@@ -461,6 +472,8 @@ impl G {
 					7 => "\"error\":{\"code\":1,\"message\":\"\",\"data\":[1,{\"a\":null}]}".to_string(),
 					8 => "\"error\":{\"code\":-32601,\"message\":\"Method not found\"}".to_string(),
 					9 => "\"error\":{\"code\":-32602,\"message\":\"Invalid params\",\"data\":\"x\"}".to_string(),
+					14 => "\"error\":[-32000,\"by position\",null]".to_string(),
+					15 => format!("\"error\":{}", "{\"message\":\"m\",\"data\":{\"code\":1},\"code\":2147483647}"),
 					10 => "\"result\":null".to_string(),
 					11 => "\"result\":\"gone\"".to_string(),
 					12 => "\"result\":{\"ok\":0}".to_string(),
@@ -498,7 +511,16 @@ impl G {
 				let op = self.next_op;
 				self.next_op += 1;
 				self.sid_counter += 1;
-				let sid = if rng.chance(1, 2) { format!("\"S{}\"", self.sid_counter) } else { format!("{}", 1000 + self.sid_counter) };
+				let sid = if !self.old_sids.is_empty() && rng.chance(1, 4) {
+					// the second time: subscribe again and get an id that has been used before
+					out.count("second.resubscribe-same-sid");
+					rng.pick(&self.old_sids).clone()
+				} else if rng.chance(1, 2) {
+					format!("\"S{}\"", self.sid_counter)
+				} else {
+					format!("{}", 1000 + self.sid_counter)
+				};
+				self.old_sids.push(sid.clone());
 				self.deliver(&format!("{{\"jsonrpc\":\"2.0\",\"id\":{},\"result\":{sid}}}", idj(id, self.str_ids)));
 				if rng.chance(1, 2) {
 					self.deliver(&format!("{{\"jsonrpc\":\"2.0\",\"method\":\"sub\",\"params\":{{\"subscription\":{sid},\"result\":1}}}}"));
@@ -508,12 +530,12 @@ impl G {
 					2 => {
 						out.count("cycle.sub.unsub");
 						self.lines.push(format!("cl unsub {op}"));
-						vec![Owed::UnsubAck(id + 1, rng.below(14))]
+						vec![Owed::UnsubAck(id + 1, rng.below(16))]
 					}
 					3 => {
 						out.count("cycle.sub.drop");
 						self.lines.push(format!("cl drop {op}"));
-						vec![Owed::UnsubAck(id + 1, rng.below(14))]
+						vec![Owed::UnsubAck(id + 1, rng.below(16))]
 					}
 					4 => {
 						out.count("cycle.sub.server-close");
@@ -531,7 +553,7 @@ impl G {
 						if rng.chance(1, 2) {
 							self.lines.push(format!("cl drop {op}"));
 						}
-						vec![Owed::UnsubAck(id + 1, rng.below(14))]
+						vec![Owed::UnsubAck(id + 1, rng.below(16))]
 					}
 				}
 			}
@@ -559,6 +581,26 @@ impl G {
 					self.deliver(&format!("{{\"jsonrpc\":\"2.0\",\"method\":\"{m}\",\"params\":[1]}}"));
 				}
 				self.lines.push(format!("cl {} {op}", if rng.chance(1, 2) { "drop" } else { "unsub" }));
+				vec![]
+			}
+			13 => {
+				out.count("cycle.notification");
+				self.lines.push("cl notify".into());
+				self.next_id += 1;
+				vec![]
+			}
+			14 => {
+				out.count("cycle.typed-batch");
+				let n = rng.range(1, 3);
+				self.lines.push(format!("cl tbatch {} {n}", rng.pick(&TYPED_KINDS)));
+				let id = self.next_id;
+				self.next_id += 1;
+				self.next_op += 1;
+				vec![Owed::BatchAnswer(id, n)]
+			}
+			15 => {
+				out.count("cycle.is_connected");
+				self.lines.push("cl connected".into());
 				vec![]
 			}
 			9 => {
@@ -686,7 +728,7 @@ impl G {
 				self.sid_counter += 1;
 				let sid = format!("\"A{}\"", self.sid_counter);
 				self.deliver(&format!("{{\"jsonrpc\":\"2.0\",\"id\":{},\"result\":{sid}}}", idj(id, self.str_ids)));
-				vec![Owed::UnsubAck(id + 1, rng.below(14))]
+				vec![Owed::UnsubAck(id + 1, rng.below(16))]
 			}
 		}
 	}
@@ -698,14 +740,16 @@ fn gen_case(rng: &mut Rng, caseno: u64, out: &mut Out, long: Option<(u64, u64)>)
 	// a small request queue makes "the back end cannot be told" reachable (handler cycles 9 and 10)
 	let want_small = matches!(long, Some((9, _)) | Some((10, _))) || rng.chance(1, 3);
 	let fcap = if want_small { rng.range(1, 2) } else { 64 };
+	let opts = case_opts(rng, |k| out.count(k));
 	let mut g = G {
+		old_sids: vec![],
 		str_ids,
 		cap,
 		fcap,
 		next_id: 0,
 		next_op: 0,
 		sid_counter: 0,
-		lines: vec![format!("case {caseno} client {} {cap} {fcap}", if str_ids { "str" } else { "num" })],
+		lines: vec![format!("case {caseno} client {} {cap} {fcap}{opts}", if str_ids { "str" } else { "num" })],
 	};
 	match long {
 		Some((kind, reps)) => {
@@ -727,9 +771,9 @@ fn gen_case(rng: &mut Rng, caseno: u64, out: &mut Out, long: Option<(u64, u64)>)
 			for _ in 0..rounds {
 				let k = rng.range(1, 4);
 				let mut owed: Vec<Owed> = vec![];
-				let single_kind = if rng.chance(2, 3) { Some(rng.below(12)) } else { None };
+				let single_kind = if rng.chance(2, 3) { Some(rng.below(16)) } else { None };
 				for _ in 0..k {
-					let kind = single_kind.unwrap_or_else(|| rng.below(13));
+					let kind = single_kind.unwrap_or_else(|| rng.below(17));
 					owed.extend(g.cycle(rng, kind, out));
 					if rng.chance(1, 5) {
 						g.sizes();
@@ -751,13 +795,37 @@ fn gen_case(rng: &mut Rng, caseno: u64, out: &mut Out, long: Option<(u64, u64)>)
 	// everything is finished now: a response bearing any id used so far matches nothing pending and must make the
 	// client give up the connection (last line of the case: the connection is gone afterwards)
 	if g.next_id > 0 && rng.chance(1, 3) {
-		out.count("stale-response");
 		let id = rng.below(g.next_id);
-		let payload = if rng.chance(1, 2) { "\"result\":true" } else { "\"error\":{\"code\":-32000,\"message\":\"late\"}" };
-		let t = format!("{{\"jsonrpc\":\"2.0\",\"id\":{},{payload}}}", idj(id, g.str_ids));
-		g.deliver(&t);
+		if rng.chance(2, 3) {
+			out.count("stale-response");
+			let payload = if rng.chance(1, 2) { "\"result\":true" } else { "\"error\":{\"code\":-32000,\"message\":\"late\"}" };
+			let t = format!("{{\"jsonrpc\":\"2.0\",\"id\":{},{payload}}}", idj(id, g.str_ids));
+			g.deliver(&t);
+		} else {
+			let (name, text) = near_miss(rng, &idj(id, g.str_ids));
+			out.count(name);
+			g.lines.push(format!("cl deliverx {}", hexs(&text)));
+		}
+		// the API once more on the connection the client has given up
+		out.count("second.api-after-connection-given-up");
+		g.lines.push((*rng.pick(&["cl call", "cl subscribe", "cl batch 2", "cl connected", "cl notify"])).to_string());
+		g.lines.push("cl connected".into());
 	}
 	g.lines
+}
+
+/// every `cl deliver` line of a case, half of them in another spelling
+fn respell_delivers(rng: &mut Rng, lines: Vec<String>, out: &mut Out) -> Vec<String> {
+	lines
+		.into_iter()
+		.map(|l| match l.strip_prefix("cl deliver ") {
+			Some(h) => {
+				let text = String::from_utf8(unhex(h)).unwrap_or_default();
+				deliver_line(rng, &text, |k| out.count(k))
+			}
+			None => l,
+		})
+		.collect()
 }
 
 fn main() {
@@ -773,15 +841,17 @@ fn main() {
 		let mut caseno = 0u64;
 		// every cycle kind repeated: 1..200 (quick: 3 lengths), thorough adds 2000
 		let reps: Vec<u64> = if a.tier == "thorough" { vec![1, 2, 7, 50, 200, 2000] } else { vec![1, 5, 200] };
-		for kind in 0..13u64 {
+		for kind in 0..16u64 {
 			for r in &reps {
 				caseno += 1;
-				lines.extend(gen_case(&mut rng, caseno, &mut out, Some((kind, *r))));
+				let ls = gen_case(&mut rng, caseno, &mut out, Some((kind, *r)));
+				lines.extend(respell_delivers(&mut rng, ls, &mut out));
 			}
 		}
 		for _ in 0..n {
 			caseno += 1;
-			lines.extend(gen_case(&mut rng, caseno, &mut out, None));
+			let ls = gen_case(&mut rng, caseno, &mut out, None);
+			lines.extend(respell_delivers(&mut rng, ls, &mut out));
 		}
 	}
 	for case in split_cases(&lines) {
